@@ -43,7 +43,7 @@ fn lcg(x: &mut u64) -> u64 {
 }
 
 // Which frames of `n` new ones are delivered, in which order
-fn relay_plan(n: usize, drop: u64, dup: u64, swap: u64, seed: u64) -> Vec<usize> {
+pub fn relay_plan(n: usize, drop: u64, dup: u64, swap: u64, seed: u64) -> Vec<usize> {
     let mut x = seed % 2147483648;
     let mut plan = Vec::new();
     let mut i = 0;
